@@ -56,6 +56,18 @@ let () =
          | None, "failed" -> ()
          | Some _, _ -> add "model:open-result"
          | None, _ -> add "model:open-result");
+        (* the discipline the write-ordering theorem assumes: every footer write is issued only
+           after everything written before it has been synced (checked by the extracted barrier_ok) *)
+        let nosync = (match Sexp.field "nosync" items with Some [b] -> bool_of_sx b | _ -> true) in
+        (match Sexp.field "optrace" items with
+         | Some fs when not nosync ->
+             List.iter (function
+                 | Sexp.L (Sexp.A "file" :: _ :: ops) ->
+                     let tr = List.map (function
+                         | Sexp.A "s" -> CSync | Sexp.A "f" -> CWrite true | _ -> CWrite false) ops in
+                     if not (barrier_ok tr) then add "model:write-barrier"
+                 | _ -> ()) fs
+         | _ -> ());
         if opened = "panic" then add "spec:open-panic"
         else if opened <> "ok" then begin
           if model = None && nsynced = 0 then add "spec:first-round-unopenable" else add "spec:open-failed"
